@@ -13,8 +13,32 @@ import (
 )
 
 func Parse(expression string) (Node, error) {
+	node, err := parse(expression, false)
+	if err != nil && isStaticError(err) {
+		// The static checks are made while parsing, before the rest of the
+		// expression has been seen. An expression that is not well-formed
+		// is a syntax error whatever else is wrong with it.
+		if _, err := parse(expression, true); err != nil {
+			return nil, err
+		}
+	}
+
+	return node, err
+}
+
+func isStaticError(err error) bool {
+	switch err.(type) {
+	case *InvalidFunctionArgumentError, *InvalidFunctionCallError, *InvalidSliceStepError, *UnknownFunctionError:
+		return true
+	}
+
+	return false
+}
+
+func parse(expression string, syntaxOnly bool) (Node, error) {
 	p := parser{
-		lex: lexer.NewLexer(expression),
+		lex:        lexer.NewLexer(expression),
+		syntaxOnly: syntaxOnly,
 	}
 
 	if err := p.lex.Next(&p.curr); err != nil {
@@ -32,6 +56,10 @@ type parser struct {
 	lex  lexer.Lexer
 	curr lexer.Token
 	next lexer.Token
+
+	// syntaxOnly makes the parser check the grammar alone: function names,
+	// argument counts and kinds, and slice steps are not checked.
+	syntaxOnly bool
 }
 
 func (p *parser) advance() error {
@@ -462,6 +490,10 @@ func (p *parser) function() (Node, error) {
 
 	if err := p.advance2(); err != nil {
 		return nil, err
+	}
+
+	if p.syntaxOnly {
+		return p.functionSyntax()
 	}
 
 	switch name {
@@ -913,6 +945,37 @@ func (p *parser) argument(name string) (Node, error) {
 	}
 
 	return p.expression(1)
+}
+
+// functionSyntax parses the arguments of a call to any function: values and
+// expression references in any number.
+func (p *parser) functionSyntax() (Node, error) {
+	if p.curr.Type == lexer.CloseParenToken {
+		return &CurrentNode{}, p.advance()
+	}
+
+	for {
+		if p.curr.Type == lexer.ExpressionToken {
+			if err := p.advance(); err != nil {
+				return nil, err
+			}
+		}
+
+		if _, err := p.expression(1); err != nil {
+			return nil, err
+		}
+
+		switch p.curr.Type {
+		case lexer.CommaToken:
+			if err := p.advance(); err != nil {
+				return nil, err
+			}
+		case lexer.CloseParenToken:
+			return &CurrentNode{}, p.advance()
+		default:
+			return nil, &unexpectedTokenError{p.curr.Value}
+		}
+	}
 }
 
 func (p *parser) function1Arg(name string) (Node, error) {
@@ -1505,7 +1568,7 @@ func (p *parser) index(child Node) (Node, bool, error) {
 			return nil, false, &invalidIndexError{p.curr.Value}
 		}
 
-		if step == 0 {
+		if step == 0 && !p.syntaxOnly {
 			return nil, false, &InvalidSliceStepError{}
 		}
 
